@@ -8,21 +8,36 @@
 use std::fmt::Debug;
 use std::iter::FusedIterator;
 
-pub trait Item: Clone + PartialEq + Debug + Send + 'static {
+pub trait Item: Clone + Ord + Debug + Send + 'static {
     fn render(&self) -> String;
+    /// a deliberately non-monotone key, for the `*_by_key` family
+    fn key(&self) -> i64;
 }
 impl Item for i128 {
     fn render(&self) -> String {
         self.to_string()
+    }
+    fn key(&self) -> i64 {
+        self.rem_euclid(7) as i64
     }
 }
 impl Item for &'static str {
     fn render(&self) -> String {
         format!("{:?}", self)
     }
+    fn key(&self) -> i64 {
+        (self.len() % 5) as i64
+    }
 }
 
-pub trait DynIter<T> {
+use std::cmp::Ordering;
+
+/// Every stable method of `Iterator`, `DoubleEndedIterator` and `ExactSizeIterator` that an
+/// implementation can override with an effect of its own and that can be expressed without
+/// generics. (Not expressible / not forwarded: `try_fold`/`try_rfold` cannot be overridden on
+/// stable; adaptor constructors return std types; `collect`, `partition`, `unzip`, `find_map`,
+/// `sum`, `product` and the comparison family are generic over another type.)
+pub trait DynIter<T: Item> {
     fn next(&mut self) -> Option<T>;
     fn size_hint(&self) -> (usize, Option<usize>);
     fn nth(&mut self, n: usize) -> Option<T>;
@@ -32,6 +47,22 @@ pub trait DynIter<T> {
     fn nth_back(&mut self, n: usize) -> Option<T>;
     fn rfold(self: Box<Self>, init: u64, f: &mut dyn FnMut(u64, T) -> u64) -> u64;
     fn len(&self) -> usize;
+    fn count(self: Box<Self>) -> usize;
+    fn for_each(self: Box<Self>, f: &mut dyn FnMut(T));
+    fn reduce(self: Box<Self>, f: &mut dyn FnMut(T, T) -> T) -> Option<T>;
+    fn all(&mut self, f: &mut dyn FnMut(T) -> bool) -> bool;
+    fn any(&mut self, f: &mut dyn FnMut(T) -> bool) -> bool;
+    fn find(&mut self, f: &mut dyn FnMut(&T) -> bool) -> Option<T>;
+    fn rfind(&mut self, f: &mut dyn FnMut(&T) -> bool) -> Option<T>;
+    fn position(&mut self, f: &mut dyn FnMut(T) -> bool) -> Option<usize>;
+    fn rposition(&mut self, f: &mut dyn FnMut(T) -> bool) -> Option<usize>;
+    fn max(self: Box<Self>) -> Option<T>;
+    fn min(self: Box<Self>) -> Option<T>;
+    fn max_by(self: Box<Self>, f: &mut dyn FnMut(&T, &T) -> Ordering) -> Option<T>;
+    fn min_by(self: Box<Self>, f: &mut dyn FnMut(&T, &T) -> Ordering) -> Option<T>;
+    fn max_by_key(self: Box<Self>, f: &mut dyn FnMut(&T) -> i64) -> Option<T>;
+    fn min_by_key(self: Box<Self>, f: &mut dyn FnMut(&T) -> i64) -> Option<T>;
+    fn is_sorted(self: Box<Self>) -> bool;
 }
 
 pub type BoxIter<T> = Box<dyn DynIter<T> + Send>;
@@ -40,7 +71,7 @@ pub type BoxIter<T> = Box<dyn DynIter<T> + Send>;
 /// method to the method of the same name of `$inner`, mapping items through `$conv`.
 #[macro_export]
 macro_rules! impl_dyn {
-    ($w:ident, $inner:ty, $t:ty, $conv:expr) => {
+    ($w:ident, $inner:ty, $t:ty, $conv:expr, $unconv:expr) => {
         pub struct $w(pub $inner);
         impl $crate::dynit::DynIter<$t> for $w {
             fn next(&mut self) -> Option<$t> {
@@ -69,6 +100,60 @@ macro_rules! impl_dyn {
             }
             fn len(&self) -> usize {
                 ::core::iter::ExactSizeIterator::len(&self.0)
+            }
+            fn count(self: Box<Self>) -> usize {
+                ::core::iter::Iterator::count(self.0)
+            }
+            fn for_each(self: Box<Self>, f: &mut dyn FnMut($t)) {
+                ::core::iter::Iterator::for_each(self.0, |x| f(($conv)(x)))
+            }
+            fn reduce(self: Box<Self>, f: &mut dyn FnMut($t, $t) -> $t) -> Option<$t> {
+                ::core::iter::Iterator::reduce(self.0, |a, b| ($unconv)(f(($conv)(a), ($conv)(b)))).map($conv)
+            }
+            fn all(&mut self, f: &mut dyn FnMut($t) -> bool) -> bool {
+                ::core::iter::Iterator::all(&mut self.0, |x| f(($conv)(x)))
+            }
+            fn any(&mut self, f: &mut dyn FnMut($t) -> bool) -> bool {
+                ::core::iter::Iterator::any(&mut self.0, |x| f(($conv)(x)))
+            }
+            fn find(&mut self, f: &mut dyn FnMut(&$t) -> bool) -> Option<$t> {
+                ::core::iter::Iterator::find(&mut self.0, |x| f(&($conv)(*x))).map($conv)
+            }
+            fn rfind(&mut self, f: &mut dyn FnMut(&$t) -> bool) -> Option<$t> {
+                ::core::iter::DoubleEndedIterator::rfind(&mut self.0, |x| f(&($conv)(*x))).map($conv)
+            }
+            fn position(&mut self, f: &mut dyn FnMut($t) -> bool) -> Option<usize> {
+                ::core::iter::Iterator::position(&mut self.0, |x| f(($conv)(x)))
+            }
+            fn rposition(&mut self, f: &mut dyn FnMut($t) -> bool) -> Option<usize> {
+                ::core::iter::Iterator::rposition(&mut self.0, |x| f(($conv)(x)))
+            }
+            fn max(self: Box<Self>) -> Option<$t> {
+                ::core::iter::Iterator::max(self.0).map($conv)
+            }
+            fn min(self: Box<Self>) -> Option<$t> {
+                ::core::iter::Iterator::min(self.0).map($conv)
+            }
+            fn max_by(
+                self: Box<Self>,
+                f: &mut dyn FnMut(&$t, &$t) -> ::core::cmp::Ordering,
+            ) -> Option<$t> {
+                ::core::iter::Iterator::max_by(self.0, |a, b| f(&($conv)(*a), &($conv)(*b))).map($conv)
+            }
+            fn min_by(
+                self: Box<Self>,
+                f: &mut dyn FnMut(&$t, &$t) -> ::core::cmp::Ordering,
+            ) -> Option<$t> {
+                ::core::iter::Iterator::min_by(self.0, |a, b| f(&($conv)(*a), &($conv)(*b))).map($conv)
+            }
+            fn max_by_key(self: Box<Self>, f: &mut dyn FnMut(&$t) -> i64) -> Option<$t> {
+                ::core::iter::Iterator::max_by_key(self.0, |a| f(&($conv)(*a))).map($conv)
+            }
+            fn min_by_key(self: Box<Self>, f: &mut dyn FnMut(&$t) -> i64) -> Option<$t> {
+                ::core::iter::Iterator::min_by_key(self.0, |a| f(&($conv)(*a))).map($conv)
+            }
+            fn is_sorted(self: Box<Self>) -> bool {
+                ::core::iter::Iterator::is_sorted(self.0)
             }
         }
     };
@@ -105,6 +190,54 @@ impl<T: Item> DynIter<T> for ModelIter<T> {
     fn len(&self) -> usize {
         self.0.len()
     }
+    fn count(self: Box<Self>) -> usize {
+        self.0.count()
+    }
+    fn for_each(self: Box<Self>, f: &mut dyn FnMut(T)) {
+        self.0.for_each(|x| f(x))
+    }
+    fn reduce(self: Box<Self>, f: &mut dyn FnMut(T, T) -> T) -> Option<T> {
+        self.0.reduce(|a, b| f(a, b))
+    }
+    fn all(&mut self, f: &mut dyn FnMut(T) -> bool) -> bool {
+        self.0.all(|x| f(x))
+    }
+    fn any(&mut self, f: &mut dyn FnMut(T) -> bool) -> bool {
+        self.0.any(|x| f(x))
+    }
+    fn find(&mut self, f: &mut dyn FnMut(&T) -> bool) -> Option<T> {
+        self.0.find(|x| f(x))
+    }
+    fn rfind(&mut self, f: &mut dyn FnMut(&T) -> bool) -> Option<T> {
+        self.0.rfind(|x| f(x))
+    }
+    fn position(&mut self, f: &mut dyn FnMut(T) -> bool) -> Option<usize> {
+        self.0.position(|x| f(x))
+    }
+    fn rposition(&mut self, f: &mut dyn FnMut(T) -> bool) -> Option<usize> {
+        self.0.rposition(|x| f(x))
+    }
+    fn max(self: Box<Self>) -> Option<T> {
+        self.0.max()
+    }
+    fn min(self: Box<Self>) -> Option<T> {
+        self.0.min()
+    }
+    fn max_by(self: Box<Self>, f: &mut dyn FnMut(&T, &T) -> Ordering) -> Option<T> {
+        self.0.max_by(|a, b| f(a, b))
+    }
+    fn min_by(self: Box<Self>, f: &mut dyn FnMut(&T, &T) -> Ordering) -> Option<T> {
+        self.0.min_by(|a, b| f(a, b))
+    }
+    fn max_by_key(self: Box<Self>, f: &mut dyn FnMut(&T) -> i64) -> Option<T> {
+        self.0.max_by_key(|a| f(a))
+    }
+    fn min_by_key(self: Box<Self>, f: &mut dyn FnMut(&T) -> i64) -> Option<T> {
+        self.0.min_by_key(|a| f(a))
+    }
+    fn is_sorted(self: Box<Self>) -> bool {
+        self.0.is_sorted()
+    }
 }
 
 pub fn model<T: Item>(items: Vec<T>) -> Dyn<T> {
@@ -114,7 +247,7 @@ pub fn model<T: Item>(items: Vec<T>) -> Dyn<T> {
 /// The one non-generic wrapper; see module doc.
 pub struct Dyn<T>(pub BoxIter<T>);
 
-impl<T> Iterator for Dyn<T> {
+impl<T: Item> Iterator for Dyn<T> {
     type Item = T;
     #[inline]
     fn next(&mut self) -> Option<T> {
@@ -143,9 +276,48 @@ impl<T> Iterator for Dyn<T> {
     fn last(self) -> Option<T> {
         self.0.last()
     }
+    #[inline]
+    fn count(self) -> usize {
+        self.0.count()
+    }
+    fn for_each<F: FnMut(T)>(self, mut f: F) {
+        self.0.for_each(&mut f)
+    }
+    fn reduce<F: FnMut(T, T) -> T>(self, mut f: F) -> Option<T> {
+        self.0.reduce(&mut f)
+    }
+    fn all<F: FnMut(T) -> bool>(&mut self, mut f: F) -> bool {
+        self.0.all(&mut f)
+    }
+    fn any<F: FnMut(T) -> bool>(&mut self, mut f: F) -> bool {
+        self.0.any(&mut f)
+    }
+    fn find<P: FnMut(&T) -> bool>(&mut self, mut p: P) -> Option<T> {
+        self.0.find(&mut p)
+    }
+    fn position<P: FnMut(T) -> bool>(&mut self, mut p: P) -> Option<usize> {
+        self.0.position(&mut p)
+    }
+    // (`rposition` is not overridden here: its `Self: ExactSizeIterator + DoubleEndedIterator` bound
+    // defeats normalisation of `Self::Item`; operations call `DynIter::rposition` directly instead)
+    fn max(self) -> Option<T> {
+        self.0.max()
+    }
+    fn min(self) -> Option<T> {
+        self.0.min()
+    }
+    fn max_by<F: FnMut(&T, &T) -> Ordering>(self, mut f: F) -> Option<T> {
+        self.0.max_by(&mut f)
+    }
+    fn min_by<F: FnMut(&T, &T) -> Ordering>(self, mut f: F) -> Option<T> {
+        self.0.min_by(&mut f)
+    }
+    fn is_sorted(self) -> bool {
+        self.0.is_sorted()
+    }
 }
 
-impl<T> DoubleEndedIterator for Dyn<T> {
+impl<T: Item> DoubleEndedIterator for Dyn<T> {
     #[inline]
     fn next_back(&mut self) -> Option<T> {
         self.0.next_back()
@@ -165,13 +337,16 @@ impl<T> DoubleEndedIterator for Dyn<T> {
         });
         acc.unwrap()
     }
+    fn rfind<P: FnMut(&T) -> bool>(&mut self, mut p: P) -> Option<T> {
+        self.0.rfind(&mut p)
+    }
 }
 
-impl<T> ExactSizeIterator for Dyn<T> {
+impl<T: Item> ExactSizeIterator for Dyn<T> {
     #[inline]
     fn len(&self) -> usize {
         self.0.len()
     }
 }
 
-impl<T> FusedIterator for Dyn<T> {}
+impl<T: Item> FusedIterator for Dyn<T> {}
